@@ -28,7 +28,7 @@ let () =
              if b = None || is_empty t then Buffer.add_string buf " NA"
              else List.iter (fun c -> match direct t b s c with Some g -> Buffer.add_string buf (Printf.sprintf " %x" (int_of_n g)) | None -> trap := true) cps;
              Buffer.add_string buf " C";
-             if is_empty t then Buffer.add_string buf " NA" else
+             if is_empty t || b = None then Buffer.add_string buf " NA" else      (* no BMP subtable: no cache, no face *)
              (match cached_build t b s with
               | None -> trap := true
               | Some None -> Buffer.add_string buf " OUTOFFUEL"
